@@ -38,12 +38,12 @@ theorem fresh_of_rowsConsistent {F : BodyFn} {P : Project} {g : G} (hwf : WF P g
     intro v hv
     obtain ⟨h, h1, h2⟩ := hm v hv
     rw [h1, h2]
-  rw [row_eq _ (hwf.prods t ht _ (mem_prods_of_mem_zipIdx hpi)), stateOf_nv] at hrow
+  rw [row_eq _ (hwf.prods t ht _ (mem_prods_of_mem_zipIdx hpi)), cr_stateOf_nv] at hrow
   rw [hrow, row_eq _ (tv_mem_neighbours g t.id), stateOf_tv P w t.id t (hwf.find t ht)]
   congr 2
   apply List.map_congr_left
   intro d hd
-  rw [row_eq _ (hwf.deps t ht d hd), stateOf_nv]
+  rw [row_eq _ (hwf.deps t ht d hd), cr_stateOf_nv]
 
 theorem Q.inv {F : BodyFn} {P : Project} {g : G} {w : World} {A : Nat → Prop} (hwf : WF P g) (q : Q F P g w A) :
     Inv F P g w := by
@@ -71,7 +71,7 @@ theorem fresh_congr {F : BodyFn} {w w' : World} {t : TaskSpec}
 theorem lookup_insert_same (fs : FS) (n c q : Nat) (h : lookup fs n = some c) : lookup (insert fs n c) q = lookup fs q := by
   by_cases hq : q = n
   · subst hq; rw [lookup_insert_self, h]
-  · exact lookup_insert_ne _ _ _ _ hq
+  · exact cr_lookup_insert_ne _ _ _ _ hq
 
 theorem applySteps_same (st : List Step) (w : World)
     (h : ∀ s ∈ st, ∃ n c, s = Step.write n c ∧ lookup w.fs n = some c) :
@@ -95,7 +95,7 @@ theorem applySteps_avoid (Keep : Nat → Prop) (st : List Step) (w : World)
     obtain ⟨n, c, rfl, hn⟩ := h _ (List.mem_cons_self ..)
     intro q hq
     rw [applySteps_cons, ih _ (fun s' hs' => h s' (List.mem_cons_of_mem _ hs')) q hq]
-    exact lookup_insert_ne _ _ _ _ (fun heq => hn (heq ▸ hq))
+    exact cr_lookup_insert_ne _ _ _ _ (fun heq => hn (heq ▸ hq))
 
 /-- every write of a body goes to a declared product and carries the body's function of the contents read at the start -/
 theorem bodySteps_mem (F : BodyFn) (t : TaskSpec) (fs : FS) (s : Step) (hs : s ∈ bodySteps F t fs) :
@@ -171,7 +171,7 @@ theorem q_phase_prefix {F : BodyFn} {P : Project} {g : G} (hwf2 : WF2 P) (cfg : 
 theorem q_report_prefix {F : BodyFn} {P : Project} {g : G} (hwf : WF P g) (cfg : Cfg) (s1 : Sess) (spec : TaskSpec)
     (hspec : spec ∈ P.tasks) (A : Nat → Prop) (q : Q F P g s1.w A) (hfresh : Fresh F s1.w spec)
     (hprod : ∀ u ∈ P.tasks, (∃ d ∈ spec.deps, d ∈ u.prods) → A u.id) (r : Raised) (j : Nat) :
-    Q F P g (applySteps s1.w ((reportSteps P g cfg s1 spec r).take j)) (fun x => A x ∨ x = spec.id) := by
+    Q F P g (applySteps s1.w ((reportStepsEach P g cfg s1 spec r).take j)) (fun x => A x ∨ x = spec.id) := by
   have hrows := (reportSteps_onlyRows P g cfg s1 spec r).take j
   have hfs := applySteps_onlyRows_fs hrows s1.w
   refine ⟨?_, ?_, ?_⟩
@@ -199,8 +199,8 @@ theorem Q.mono_set {F : BodyFn} {P : Project} {g : G} {w : World} {A : Nat → P
 theorem q_protocol_prefix {F : BodyFn} {P : Project} {g : G} (hwf : WF P g) (hwf2 : WF2 P) (cfg : Cfg) (s : Sess)
     (spec : TaskSpec) (hspec : spec ∈ P.tasks) (A : Nat → Prop) (q : Q F P g s.w A)
     (hprod : ∀ u ∈ P.tasks, (∃ d ∈ spec.deps, d ∈ u.prods) → A u.id) (j : Nat) :
-    ∃ A', (∀ x, A x → A' x) ∧ Q F P g (applySteps s.w ((protocolSteps F P g cfg s spec).take j)) A' := by
-  unfold protocolSteps
+    ∃ A', (∀ x, A x → A' x) ∧ Q F P g (applySteps s.w ((protocolStepsEach F P g cfg s spec).take j)) A' := by
+  unfold protocolStepsEach
   simp only []
   rw [List.take_append, applySteps_append]
   by_cases hk : j ≤ (phaseSteps F P g cfg s spec).length
@@ -227,7 +227,7 @@ theorem q_protocol_good {F : BodyFn} {P : Project} {g : G} (hwf : WF P g) (hwf2 
     rw [List.take_length, applySteps_phases] at q1
     have hfresh := runPhases_none_fresh F P g cfg s spec (hwf.nodup spec hspec) (hwf.disj spec hspec) (hwf.honest spec hspec) hr
     have := q_report_prefix hwf cfg _ spec hspec A q1 hfresh hprod (runPhases F P g cfg s spec).1
-      (reportSteps P g cfg (runPhases F P g cfg s spec).2 spec (runPhases F P g cfg s spec).1).length
+      (reportStepsEach P g cfg (runPhases F P g cfg s spec).2 spec (runPhases F P g cfg s spec).1).length
     rw [List.take_length, applySteps_report] at this
     exact this
   · obtain ⟨hm, hs⟩ := rowsMatch_of_skippedUnchanged F P g cfg s spec hr
@@ -367,9 +367,9 @@ def FrameOrdered (P : Project) (g : G) (D : List Nat) (picks : List Nat) : Prop 
 theorem protocolSteps_avoid (F : BodyFn) (P : Project) (g : G) (cfg : Cfg) (s : Sess) (spec : TaskSpec) (t' : Nat)
     (hne : t' ≠ spec.id)
     (hp : ∀ p ∈ spec.prods, nv p ∉ neighbours g t' ∧ ∀ spec', Project.find? P t' = some spec' → spec'.src ≠ p) :
-    ∀ x ∈ protocolSteps F P g cfg s spec, StepAvoids P g t' x := by
+    ∀ x ∈ protocolStepsEach F P g cfg s spec, StepAvoids P g t' x := by
   intro x hx
-  unfold protocolSteps at hx
+  unfold protocolStepsEach at hx
   simp only [List.mem_append] at hx
   rcases hx with hx | hx
   · obtain ⟨pi, hpi, rfl⟩ := phaseSteps_mem F P g cfg s spec x hx
@@ -506,7 +506,7 @@ theorem converge_abstract (F : BodyFn) (P : Project) (g : G) (cfg cfg' : Cfg)
     (so0 so1 : Sorter) (s0 s1 : Sess) (hrc : RC F P g s0.w.db) (done : List Nat) (tstar : Nat) (specS : TaskSpec)
     (hloop1 : buildLoop F P g cfg so0 s0 done = .ok (so1, s1)) (hgood1 : ∀ rep ∈ s1.reports, GoodOutcome rep.2)
     (hfindS : Project.find? P tstar = some specS) (hord1 : DataOrdered P (fun _ => False) (done ++ [tstar]))
-    (j : Nat) (w1 : World) (hw1 : w1 = applySteps s1.w ((protocolSteps F P g cfg s1 specS).take j))
+    (j : Nat) (w1 : World) (hw1 : w1 = applySteps s1.w ((protocolStepsEach F P g cfg s1 specS).take j))
     -- the recovery build
     (so2 so3 : Sorter) (s2 s3 : Sess) (hs2 : s2.w = w1) (picks2 : List Nat)
     (hloop2 : buildLoop F P g cfg' so2 s2 picks2 = .ok (so3, s3)) (hgood2 : ∀ rep ∈ s3.reports, GoodOutcome rep.2)
@@ -665,7 +665,7 @@ theorem c05_frame2 : FrameOrdered c05P c05G [] [0, 1] := by
 end Engine
 end Pytask
 
-/-! data for the refutation `C05_edit_after_kill_full_false` (finding F50) -/
+/-! data for the F50 scenario (examples of `Properties/C05.lean`) -/
 namespace Pytask
 namespace Engine
 
@@ -694,18 +694,6 @@ theorem f50_rc : RC f50F f50P f50G f50W.db := by
   have : pi = (20, 0) := by simpa [f50T] using hpi
   subst this
   decide
-
-theorem f50_rowsMatch :
-    RowsMatch f50P f50G (applyStep (crashAt f50F f50P {} f50W [0] 2) (.write 11 0)) f50T.id := by
-  intro v hv
-  have hn : neighbours f50G f50T.id = [21, 23, 0, 41] := by decide
-  rw [hn] at hv
-  simp at hv
-  rcases hv with rfl | rfl | rfl | rfl
-  · exact ⟨1, by decide, by decide⟩
-  · exact ⟨0, by decide, by decide⟩
-  · exact ⟨7, by decide, by decide⟩
-  · exact ⟨0, by decide, by decide⟩
 
 end Engine
 end Pytask
